@@ -3,6 +3,12 @@ use crate::engine::Prop;
 
 pub mod common;
 pub mod c01;
+pub mod c02;
+pub mod c03;
+pub mod c04;
+pub mod c06;
+pub mod c07;
+pub mod c08;
 pub mod c15;
 
-pub static ALL: &[&Prop] = &[&c01::PROP, &c15::PROP];
+pub static ALL: &[&Prop] = &[&c01::PROP, &c02::PROP, &c03::PROP, &c04::PROP, &c06::PROP, &c07::PROP, &c08::PROP, &c15::PROP];
